@@ -57,6 +57,17 @@ type Contract struct {
 	NoVerify bool     // contract given for callers only; body outside subset (counts as assumption)
 	Reason   string
 	Refines  string // key of a (dynamic-call) contract whose requires/ensures/modifies this one inherits
+	NoCrash  bool   // crash obligations are not generated (assumed); recorded as an assumption
+	CallSites []*CallSiteSpec
+}
+
+// CallSiteSpec pins what happens at the call sites of one callee inside the function under contract.
+type CallSiteSpec struct {
+	Callee string
+	Which  int // ordinal, or -1 for all
+	Count  int // expected number of static call sites, or -1
+	Clause *Clause
+	Where  string
 }
 
 type PredDef struct {
@@ -97,10 +108,11 @@ type Specs struct {
 	Sorts     []string
 	Frames    []*FrameRule
 	Order     []string
+	ModSets   map[string]string
 }
 
 func newSpecs() *Specs {
-	return &Specs{Contracts: map[string]*Contract{}, Preds: map[string]*PredDef{}, UFuncs: map[string]*UFunc{}, Ghosts: map[string]*GhostVar{}}
+	return &Specs{Contracts: map[string]*Contract{}, Preds: map[string]*PredDef{}, UFuncs: map[string]*UFunc{}, Ghosts: map[string]*GhostVar{}, ModSets: map[string]string{}}
 }
 
 var labelRe = regexp.MustCompile(`^\[([A-Za-z0-9_.:+-]+)\]\s*`)
@@ -360,6 +372,13 @@ func (sp *Specs) directive(line, where string, cur **Contract) error {
 	case "sort":
 		sp.Sorts = append(sp.Sorts, rest)
 		*cur = nil
+	case "modset":
+		k := strings.Index(rest, ":=")
+		if k < 0 {
+			return fmt.Errorf("%s: modset NAME := entries", where)
+		}
+		sp.ModSets[strings.TrimSpace(rest[:k])] = strings.TrimSpace(rest[k+2:])
+		*cur = nil
 	case "ghost":
 		// ghost Name Type
 		parts := strings.Fields(rest)
@@ -512,7 +531,43 @@ func (sp *Specs) directive(line, where string, cur **Contract) error {
 			default:
 				return fmt.Errorf("%s: loop clause %q", where, f[1])
 			}
+		case "nocrash":
+			c.NoCrash = true
+		case "callsite":
+			// callsite <callee key> <ordinal|*> requires E     |   callsite <callee key> count N
+			var cs *CallSiteSpec
+			if i := strings.Index(rest, " requires "); i >= 0 {
+				hd := strings.Fields(rest[:i])
+				if len(hd) < 2 {
+					return fmt.Errorf("%s: callsite KEY N requires E", where)
+				}
+				cs = &CallSiteSpec{Callee: strings.Join(hd[:len(hd)-1], " "), Which: -1, Count: -1, Where: where}
+				if hd[len(hd)-1] != "*" {
+					n, err := strconv.Atoi(hd[len(hd)-1])
+					if err != nil {
+						return fmt.Errorf("%s: callsite ordinal: %v", where, err)
+					}
+					cs.Which = n
+				}
+				cl, err := sp.clause(strings.TrimSpace(rest[i+10:]), where, c.Props)
+				if err != nil {
+					return err
+				}
+				cs.Clause = cl
+			} else if i := strings.Index(rest, " count "); i >= 0 {
+				n, err := strconv.Atoi(strings.TrimSpace(rest[i+7:]))
+				if err != nil {
+					return fmt.Errorf("%s: callsite count: %v", where, err)
+				}
+				cs = &CallSiteSpec{Callee: strings.TrimSpace(rest[:i]), Which: -1, Count: n, Where: where}
+			} else {
+				return fmt.Errorf("%s: callsite KEY N requires E | callsite KEY count N", where)
+			}
+			c.CallSites = append(c.CallSites, cs)
 		case "modifies":
+			for name, body := range sp.ModSets {
+				rest = strings.ReplaceAll(rest, "@"+name, body)
+			}
 			for _, m := range splitTop(rest, ',') {
 				m = strings.TrimSpace(m)
 				if m == "" {
@@ -582,6 +637,11 @@ func parseModEntry(m string) (*ModEntry, error) {
 			return nil, err
 		}
 		me.Kind, me.Expr = "map", e
+		return me, nil
+	}
+	if strings.HasPrefix(m, "mapsof ") {
+		me.Kind = "mapsof"
+		me.Type = strings.TrimSpace(m[7:])
 		return me, nil
 	}
 	if strings.HasPrefix(m, "global ") {
